@@ -26,7 +26,7 @@ def q(a):
             nan = 1
             out.append(0)
         else:
-            out.append(int(round(float(x) * GRID)))
+            out.append(max(-10 ** 7, min(10 ** 7, int(round(float(x) * GRID)))))
     return out, nan
 
 
